@@ -6,9 +6,12 @@ package main
 // (b) short successful deliveries at that read.
 
 import (
+	"bufio"
+	"encoding/json"
 	"flag"
 	"fmt"
 	"io"
+	"os"
 	"reflect"
 	"syscall"
 
@@ -69,9 +72,25 @@ func cmdFaults(args []string) {
 	out := fs.String("out", "fault.ndjson", "")
 	shard := fs.Int("shard", 0, "")
 	shards := fs.Int("shards", 1, "")
+	baseOnly := fs.Bool("baseonly", false, "only the fault-free runs (to be compared with the same runs of another process, later)")
+	compare := fs.String("compare", "", "trace of an earlier -baseonly run of the same scenarios and seed: emit 'rerun' events")
 	fs.Parse(args)
 	scs := readScenarios(*scen)
 	em := NewEmitter(*out)
+	earlier := map[int]GenRes{}
+	if *compare != "" {
+		if f, err := os.Open(*compare); err == nil {
+			sc := bufio.NewScanner(f)
+			sc.Buffer(make([]byte, 1<<20), 1<<26)
+			for sc.Scan() {
+				var ev FaultEv
+				if json.Unmarshal(sc.Bytes(), &ev) == nil && ev.Mode == "base" {
+					earlier[ev.ID] = ev.Res
+				}
+			}
+			f.Close()
+		}
+	}
 	for i, sc := range scs {
 		if i%*shards != *shard {
 			continue
@@ -93,7 +112,26 @@ func cmdFaults(args []string) {
 		}
 		words := o.Tape.Words
 		R := o.Tape.Reads
+		if *compare != "" {
+			if sc.Kind != "char" {
+				// a word list orders its words afresh in every construction (map order): the same indices select other
+				// words in another process, so only character recipes are comparable across processes
+				restore()
+				continue
+			}
+			ev := FaultEv{Op: "fault", ID: i, Kind: sc.Kind, Mode: "rerun", Reads: R, Words: len(words), Res: base}
+			if prev, ok := earlier[i]; ok && reflect.DeepEqual(prev, base) {
+				ev.Same = 1
+			}
+			em.Emit(ev)
+			restore()
+			continue
+		}
 		em.Emit(FaultEv{Op: "fault", ID: i, Kind: sc.Kind, Mode: "base", Reads: R, Words: len(words), Res: base, Same: 1})
+		if *baseOnly {
+			restore()
+			continue
+		}
 		errKinds := []struct {
 			name string
 			err  error
